@@ -447,6 +447,7 @@ func propC15(w *World, r *Report) {
 	}
 	e := newTermEnv(w)
 	// A1
+	checkDetectorParamsImmutable(w, r, d, "A1", "tempThreshMin", "tempThreshMax", "dynamicThresh", "previewFrames", "start", "rowStop", "columnStop")
 	paths, complete := enumPaths(e, k.calcThresh, 64)
 	if !complete {
 		r.Unknown("A1", k.calcThresh.Name(), w.Pos(k.calcThresh.Pos()), "threshold computation is not loop-free")
